@@ -355,7 +355,12 @@ def round_trip(rep, tier, seed):
 
 
 def build(rep, tier="quick", seed=0, known=None):
+    from contracts import literals as LIT
+    from pyvc.parallel import run_contracts
     regex_obligations(rep)
+    LIT.tokenisation_obligations(rep)
+    LIT.independence_obligations(rep, Sources())
+    run_contracts(LIT.str_contracts() + LIT.bytes_contracts(), rep, known=known)
     allf = []
     allf += escape_table(rep)
     for part in (decoding(rep, tier, seed, known), numbers(rep, tier, seed), round_trip(rep, tier, seed)):
